@@ -56,10 +56,9 @@ def is_deep():
 
 
 def types():
-    C.use_repo()
-    import ofxtools.Types as T
-    importlib.reload(T)
-    return T
+    """ofxtools.Types of the tree under check (never reloaded once the model classes may exist: they hold its instances)"""
+    from ..translate_scalars import live_types
+    return live_types()
 
 
 # ------------------------------------------------------------------ element descriptions (JSON-able dicts)
@@ -619,6 +618,17 @@ def predicate(T, done, convs, fails):
     def fail(key, what, e, op, v, **kw):
         fails.append(C.Failure(key, what, dict(elem=e, op=op, value=jval(v), **kw)))
 
+    # --- String.convert un-escapes exactly what the serializers escape (theorem unescape_escape), for every string value
+    from xml.sax import saxutils
+    import xml.etree.ElementTree as ET
+    plain = T.String()
+    for (e, op, v, out) in done:
+        if isinstance(v, str) and v != "" and base_elem(e)["type"] == "String" and op == "unconvert":
+            for esc_name, esc in (("saxutils.escape", saxutils.escape), ("ET._escape_cdata", ET._escape_cdata)):
+                back = call(T, plain, "convert", esc(v))
+                if back[0] != "ok" or back[1] != v:
+                    fail("String.convert:unescape-not-inverse-of-escape", "String().convert(%s(%r)) -> %r" % (esc_name, v, back), {"type": "String"}, "convert", esc(v), observed=jout(back), expected=v)
+
     for (e, op, v, out) in done:
         b = base_elem(e)
         t, req = b["type"], b.get("required", False)
@@ -763,7 +773,7 @@ def run(rep, tier, rng):
     thorough = tier == "thorough"
     deep = is_deep()
     rep.extra["deep_setting"] = deep
-    K = 600 if thorough else (110 if deep else 55)
+    K = 600 if thorough else (160 if deep else 110)
     cases = load_corpus(PROP) + build_cases(T, rng, K)
     done, convs = run_impl(T, cases, rep, PROP)
     predicate(T, done, convs, rep.failures)
